@@ -81,6 +81,14 @@ var Vp8 = &cu.Spec{
 	MarkerOnlyLast: true,
 	Stateful:       true,
 	MaxFrameBytes:  vpMaxFrame,
+	FrameOfSize: func(n int) cu.Frame {
+		b := make([]byte, n)
+		for i := range b {
+			b[i] = byte(i*13 + 1)
+		}
+		copy(b, []byte{0x10})
+		return cu.Frame{b}
+	},
 	RetainBound:    vpMaxFrame + 65536,
 	Hostile:        vp8Hostile,
 	PickMax: func(r *rand.Rand) int {
